@@ -357,6 +357,8 @@ func (e *Engine) sample(st *State, label, verdict string, ms float64) {
 	e.samples = append(e.samples, Sample{Entry: e.entryName, Shape: shape, Label: label, Verdict: verdict, Ms: ms, PCSize: len(st.pc)})
 }
 
+var crossSolver = "z3-new"
+
 // crossCheck re-decides an assertion query on a second solver (z3 5.x, fresh context per query).
 func (e *Engine) crossCheck(q []*Term, primary Result, label string) {
 	if e.crossBudget == 0 || primary == Unknown {
@@ -366,7 +368,7 @@ func (e *Engine) crossCheck(q []*Term, primary Result, label string) {
 		e.crossBudget--
 	}
 	if e.second == nil {
-		s, err := newSolverMode("z3-new", 20000, false)
+		s, err := newSolverMode(crossSolver, 20000, false)
 		if err != nil {
 			return
 		}
